@@ -4,6 +4,7 @@ import (
 	"context"
 	"errors"
 	"fmt"
+	"strings"
 
 	"github.com/bartossh/Computantis/src/accountant"
 	"github.com/bartossh/Computantis/src/spice"
@@ -155,6 +156,9 @@ func ErrClass(err error) string {
 	if err == nil {
 		return "ok"
 	}
+	if strings.Contains(err.Error(), "receiver cannot be the genesis node") {
+		return "genesis-receiver"
+	}
 	for _, c := range []struct {
 		e error
 		n string
@@ -222,3 +226,4 @@ func (c *CountCtx) Err() error {
 
 // Cancelled reports whether the context has reported Done at least once.
 func (c *CountCtx) Cancelled() bool { return c.At >= 0 && c.N > c.At }
+
